@@ -1,6 +1,7 @@
 package main
 
 import (
+	"context"
 	"encoding/json"
 	"fmt"
 	"os"
@@ -143,6 +144,13 @@ func (r *Report) solveAll() {
 				}
 				if len(text) > 4<<20 {
 					o.Result = SolverResult{Status: "error", Solver: "none", Output: fmt.Sprintf("VC too large: %d bytes (cap 4 MiB)", len(text))}
+					continue
+				}
+				if o.Kind == "cover" {
+					// vacuity covers: one solver, short limit; "unknown" leaves the cover undecided (not a failure)
+					file := filepath.Join(r.cfg.TmpDir, sanitizeFile(o.Name)+".smt2")
+					_ = os.WriteFile(file, []byte(text), 0o644)
+					o.Result = runSolver(context.Background(), solverSpecs[0], file, 2, r.Seed)
 					continue
 				}
 				o.Result = Solve(text, o.Name, SolveOpts{QuickSec: quick, FullSec: full, Seed: r.Seed, Dir: r.cfg.TmpDir, Induction: o.Induct})
